@@ -505,7 +505,15 @@ func (e *Engine) replay(o *Oblig, all []*FuncResult, dir string, cfg solveCfg) r
 		return finish("cannot start z3: " + err.Error())
 	}
 	defer s.close()
-	s.send(scriptHeader + e.prelude + fr.Script)
+	// the same script prefix the obligation was checked against; the rest of the script is
+	// needed only for the clause-on-real-outputs check further down
+	spos := o.ScriptPos
+	if spos > len(fr.Script) {
+		spos = len(fr.Script)
+	}
+	s.send(scriptHeader + e.prelude + fr.Script[:spos])
+	s.send("(push 1)")
+	popLevels := 1
 	s.send(fmt.Sprintf("(assert %s)\n(assert (not %s))", o.Guard, o.Goal))
 	// prefer small inputs
 	var small []string
@@ -527,10 +535,12 @@ func (e *Engine) replay(o *Oblig, all []*FuncResult, dir string, cfg solveCfg) r
 	for _, c := range small {
 		s.send("(assert " + c + ")")
 	}
+	popLevels++
 	s.send("(check-sat)")
 	ans, _ := s.readSexp()
 	if ans != "sat" {
 		s.send("(pop 1)")
+		popLevels--
 		s.send("(check-sat)")
 		ans, _ = s.readSexp()
 		if ans != "sat" {
@@ -732,6 +742,10 @@ func (e *Engine) replay(o *Oblig, all []*FuncResult, dir string, cfg solveCfg) r
 				}
 			}
 			if ok {
+				// back to the bare script prefix, then the rest of the script (it declares the free
+				// result constants); the obligation's own negation is no longer asserted
+				s.send(fmt.Sprintf("(pop %d)", popLevels))
+				s.send(fr.Script[spos:])
 				s.send("(push 1)")
 				for _, p := range g.pins {
 					s.send("(assert " + p + ")")
